@@ -87,6 +87,10 @@ type Check struct {
 	Assumptions []string
 	NeedRace    bool
 	NeedCLI     bool // the check runs the gophersat executable: build it from /repo (no tag)
+	// Amplify turns a diagnostic divergence (a rejected mechanism-level clause, why = "diag:...") of an
+	// executed trace into follow-up cases in which the divergence would be decisive for the property
+	// itself. The follow-ups go through the normal pipeline: only a property clause they violate counts.
+	Amplify func(env *Env, in Case, tr Case, why string) []Case
 	// Extra runs after the standard pipeline (schedule replay, race runs, ...); it may add
 	// violations, notes and coverage.
 	Extra func(env *Env, res *Result) error
